@@ -95,6 +95,27 @@ func ruleFreezeHandshake(r *Run, rule string) {
 		if ret, isRet := t.Instrs[len(t.Instrs)-1].(*ssa.Return); isRet && classifyErr(ret) == ErrNonNil {
 			okErr = true
 		}
+		if !okErr {
+			// the verdict may travel through a variable to the exit (`if err := check(); err != nil { return 0, err }` once the
+			// check is inlined): every path from the frozen outcome ends in a failing return and passes no index write
+			paths, trunc := enumPaths(t, walkCfg{MaxVisits: 1, MaxPaths: 2000 * pathScale, Decide: decideOnPath})
+			if !trunc && len(paths) > 0 {
+				okErr = true
+				n := 0
+				for _, pth := range paths {
+					if !pth.Feasible() {
+						continue
+					}
+					n++
+					if pth.End != EndReturn || pathErrClass(pth) != ErrNonNil || pth.Has(write) {
+						okErr = false
+					}
+				}
+				if n == 0 {
+					okErr = false
+				}
+			}
+		}
 		r.Check(ok && okErr, rule, "h1:"+m, w.InstrPos(test)+" "+m, "frozen is tested inside the same exclusive m.mu section as the index write; frozen ⇒ error", fmt.Sprintf("frozen test and index write are not in one exclusive critical section (exclusive=%v) or frozen does not fail", exclusive))
 	}
 	// H2: freeze sets the flag under the exclusive memtable lock
